@@ -275,12 +275,17 @@ var strs = []string{"red", "Red", "green", "grey", "blue", "b"}
 var labels = []string{"x", "y", "z", "xy"}
 
 type allCase struct {
-	Cfgs    []c04lib.FlatCfg
-	Batches []jBatch
+	Cfgs       []c04lib.FlatCfg
+	Gq         *c04lib.FlatCfg `json:",omitempty"` // a second Vamana index "gq" carrying this quantiser
+	PoisonLive bool            `json:",omitempty"` // the live shard runs behind the poisoning storage proxy too
+	Shape      string          `json:",omitempty"` // "chain": graph vectors on a geometric line, small insert batches, deletes of runs of consecutive points
+	Batches    []jBatch
 }
 type jBatch struct {
 	Kind    string
 	Changes []jChange
+	Restart bool `json:",omitempty"` // after this batch the "restart" shard is closed and reopened
+	Fault   bool `json:",omitempty"` // the storage transaction of this batch fails at commit time on the shards behind the proxy; nothing of it is committed
 }
 type jChange struct {
 	Id  string
@@ -329,7 +334,43 @@ func (b jBatch) toBatch() c04lib.Batch {
 
 var vamanaCfg = c04lib.FlatCfg{Prop: "g", Metric: "euclidean", Dim: 2}
 
-func schemaAll(cfgs []c04lib.FlatCfg) models.IndexSchema {
+func (ac allCase) vamanaCfgs() []c04lib.FlatCfg {
+	out := []c04lib.FlatCfg{vamanaCfg}
+	if ac.Gq != nil {
+		out = append(out, *ac.Gq)
+	}
+	return out
+}
+
+func vamanaBucket(prop string) string { return "index/" + models.IndexTypeVectorVamana + "/" + prop }
+
+func (ac allCase) variants() []string {
+	live := "live"
+	if ac.PoisonLive {
+		live = "live+poison"
+	}
+	return []string{live, "disabled", "evicting", "lru", "mem", "restart"}
+}
+
+func (ac allCase) newSim(dir string) *c04lib.Sim { return c04lib.NewSim(dir, schemaAll(ac), ac.variants()) }
+
+// applyTo: one batch on every shard of the simulation, then the scheduled restart
+func (jb jBatch) applyTo(sim *c04lib.Sim) error {
+	if jb.Fault {
+		if why := sim.ApplyFaulted(jb.toBatch()); why != "" {
+			return errors.New(why)
+		}
+		return nil
+	}
+	_, _, err := sim.Apply(jb.toBatch())
+	if err == nil && jb.Restart {
+		sim.Reopen("restart")
+	}
+	return err
+}
+
+func schemaAll(ac allCase) models.IndexSchema {
+	cfgs := ac.Cfgs
 	s := models.IndexSchema{
 		"g": {Type: models.IndexTypeVectorVamana, VectorVamana: &models.IndexVectorVamanaParameters{VectorSize: 2, DistanceMetric: "euclidean", SearchSize: 75, DegreeBound: 64, Alpha: 1.2}},
 		"t": {Type: models.IndexTypeText, Text: &models.IndexTextParameters{Analyser: "standard"}},
@@ -340,6 +381,10 @@ func schemaAll(cfgs []c04lib.FlatCfg) models.IndexSchema {
 	}
 	for _, c := range cfgs {
 		s[c.Prop] = c.Schema()
+	}
+	if q := ac.Gq; q != nil {
+		s[q.Prop] = models.IndexSchemaValue{Type: models.IndexTypeVectorVamana, VectorVamana: &models.IndexVectorVamanaParameters{
+			VectorSize: uint(q.Dim), DistanceMetric: q.Metric, SearchSize: 75, DegreeBound: 64, Alpha: 1.2, Quantizer: q.Quantizer()}}
 	}
 	return s
 }
@@ -356,6 +401,11 @@ type anyQuery struct {
 	Fl     float64   `json:",omitempty"`
 	Str    string    `json:",omitempty"`
 	Strs   []string  `json:",omitempty"`
+}
+
+func (q anyQuery) show() string {
+	j, _ := json.Marshal(q)
+	return string(j)
 }
 
 func (q anyQuery) filter() *models.Query {
@@ -396,6 +446,7 @@ func (q anyQuery) pass(d c04lib.Doc) bool {
 }
 
 type runner struct {
+	nextK   int // chain shape: position of the next graph vector on the line
 	r       *vh.Rng
 	o       *vh.Out
 	ac      allCase
@@ -418,11 +469,24 @@ func pick[T any](r *vh.Rng, xs []T) *T { x := vh.Pick(r, xs); return &x }
 func (rn *runner) genChange(id uuid.UUID, insert bool) jChange {
 	r := rn.r
 	c := jChange{Id: id.String(), Vec: map[string][]float32{}}
-	fields := append([]c04lib.FlatCfg{vamanaCfg}, rn.ac.Cfgs...)
-	for _, cf := range fields {
-		switch x := r.Intn(100); {
+	fields := append(rn.ac.vamanaCfgs(), rn.ac.Cfgs...)
+	nvam := len(rn.ac.vamanaCfgs())
+	for i, cf := range fields {
+		x := r.Intn(100)
+		if rn.ac.Shape == "chain" && i < nvam {
+			// every inserted point joins the chain; an update moves few of them (to the end of the line)
+			if insert {
+				x = 0
+			} else if x < 80 {
+				x = 99
+			}
+		}
+		switch {
 		case x < 60 || (insert && x < 85):
 			c.Vec[cf.Prop] = c04lib.RandVec(r, cf)
+			if rn.ac.Shape == "chain" && i < nvam {
+				c.Vec[cf.Prop] = rn.chainVec(cf)
+			}
 		case !insert && x < 75:
 			c.Del = append(c.Del, cf.Prop)
 		}
@@ -456,21 +520,48 @@ func (rn *runner) genChange(id uuid.UUID, insert bool) jChange {
 	return c
 }
 
+// chainVec: the next point of a geometric line (x = 1.5^k, everything else 0). Under the alpha rule of
+// the Vamana construction (1.2) each such point keeps only its predecessor as neighbour, so the graph
+// is a sparse chain hanging off the entry node: a delete / vector-update batch that takes a run of
+// consecutive points leaves survivors without any inbound edge (the "save" step of
+// removeInboundEdges re-attaches them to the entry node), nodes without outgoing edges, and an entry
+// node that is otherwise untouched by the batch — the states dense random graphs never reach.
+func (rn *runner) chainVec(cf c04lib.FlatCfg) []float32 {
+	v := chainAt(cf, rn.nextK)
+	rn.nextK++
+	return v
+}
+
+func chainAt(cf c04lib.FlatCfg, pos int) []float32 {
+	v := make([]float32, cf.Dim)
+	k := pos % 90
+	v[0] = float32(math.Pow(1.5, float64(k)))
+	if (pos/90)%2 == 1 {
+		v[0] = -v[0]
+	}
+	return v
+}
+
 func (rn *runner) genBatch() jBatch {
 	r, sim := rn.r, rn.sim
+	chain := rn.ac.Shape == "chain"
 	kind := "insert"
-	if len(sim.Order) > 0 {
-		switch x := r.Intn(100); {
-		case x < 35:
-			kind = "update"
-		case x < 55:
-			kind = "delete"
-		}
+	switch x := r.Intn(100); {
+	case len(sim.Order) == 0 || (chain && len(sim.Order) < 5):
+		// an empty collection; a chain is built up before it is cut
+	case chain && x < 12, !chain && x < 35:
+		kind = "update"
+	case chain && x < 62, !chain && x < 55:
+		kind = "delete"
 	}
-	jb := jBatch{Kind: kind}
+	jb := jBatch{Kind: kind, Restart: r.Chance(30)}
+	maxIns := 7
+	if chain {
+		maxIns = 1 + 2*r.Intn(2) // one point per batch half of the time: the chain grows link by link
+	}
 	switch kind {
 	case "insert":
-		for i, n := 0, 1+r.Intn(7); i < n; i++ {
+		for i, n := 0, 1+r.Intn(maxIns); i < n; i++ {
 			var u uuid.UUID
 			x, y := r.U64(), r.U64()
 			for k := 0; k < 8; k++ {
@@ -481,8 +572,28 @@ func (rn *runner) genBatch() jBatch {
 	default:
 		// distinct ids inside one batch (DESIGN §8 nos. 12, 13: repeated ids are another property's finding)
 		seen := map[uuid.UUID]bool{}
-		for i, n := 0, 1+r.Intn(5); i < n; i++ {
+		// chain shape: a run of consecutive points (in insertion order); more often than not the run
+		// of 2 or 3 that leaves exactly one survivor behind it and the first point of the chain (the
+		// entry node's neighbour) alone
+		run, runLen := -1, 0
+		if chain {
+			run, runLen = r.Intn(len(sim.Order)), 1+r.Intn(3)
+			if m := 2 + r.Intn(2); r.Chance(60) && len(sim.Order) >= m+2 {
+				run, runLen = len(sim.Order)-1-m, m
+			}
+		}
+		n := 1 + r.Intn(5)
+		if run >= 0 {
+			n = runLen
+		}
+		for i := 0; i < n; i++ {
 			id := vh.Pick(r, sim.Order)
+			if run >= 0 {
+				if run+i >= len(sim.Order) {
+					break
+				}
+				id = sim.Order[run+i]
+			}
 			if seen[id] {
 				continue
 			}
@@ -522,7 +633,9 @@ func (rn *runner) genQueries(n int) []anyQuery {
 		}
 		return nil
 	}
-	kinds := []string{"flat", "flat", "vamana", "text", "text", "int", "float", "string", "array", "id"}
+	kinds := []string{"flat", "flat", "vamana", "text", "vamana", "int", "float", "string", "array", "id", "text"}
+	vams := rn.ac.vamanaCfgs()
+	nvam := 0
 	for i := 0; i < n; i++ {
 		k := kinds[(i+r.Intn(len(kinds)))%len(kinds)]
 		if i < len(kinds) {
@@ -534,7 +647,17 @@ func (rn *runner) genQueries(n int) []anyQuery {
 			cf := vh.Pick(r, rn.ac.Cfgs)
 			q.Prop, q.Vec, q.Limit, q.Weight, q.FiltN = cf.Prop, c04lib.RandVec(r, cf), lim(), wgt(), filt()
 		case "vamana":
-			q.Prop, q.Vec, q.Limit, q.Weight, q.FiltN = "g", c04lib.RandVec(r, vamanaCfg), lim(), wgt(), filt()
+			cf := vams[(nvam+len(vams)-1)%len(vams)] // the quantised graph first, then alternating
+			nvam++
+			q.Prop, q.Vec, q.Limit, q.Weight, q.FiltN = cf.Prop, c04lib.RandVec(r, cf), lim(), wgt(), filt()
+			if rn.ac.Shape == "chain" && rn.nextK > 0 && r.Chance(60) {
+				// somewhere along the line, most often near its far end (where the stragglers are)
+				pos := rn.nextK - 1 - r.Intn(min(rn.nextK, 6))
+				if r.Chance(30) {
+					pos = r.Intn(rn.nextK)
+				}
+				q.Vec = chainAt(cf, pos)
+			}
 		case "text":
 			nw := 1 + r.Intn(3)
 			w := make([]string, nw)
@@ -637,15 +760,21 @@ type shardRef struct {
 
 func (rn *runner) compareAll(q anyQuery, refs []shardRef) {
 	o, sim := rn.o, rn.sim
-	live := refs[0]
+	live := refs[0] // the base of this group: the live shard, or a long-lived variant compared with copies of its own file
+	warm := live.name
+	if warm == "live" {
+		warm = "warm"
+	}
 	lh, lerr := c04lib.Search(live.sh, q.toQuery())
-	o.Stats["query-"+q.Kind]++
-	if len(lh) > 0 {
-		o.Nontrivial++ // a shard-level query with a non-empty answer, compared across all shards
-		o.Stats["query-nonempty"]++
+	if live.name == "live" {
+		o.Stats["query-"+q.Kind]++
+		if len(lh) > 0 {
+			o.Nontrivial++ // a shard-level query with a non-empty answer, compared across all shards
+			o.Stats["query-nonempty"]++
+		}
 	}
 	if lerr != nil {
-		o.Fail("query-error:warm:"+q.Kind, fmt.Sprintf("%s query failed on the live shard: %v", q.Kind, lerr), rn.replayOf(&q, "warm"))
+		o.Fail("query-error:"+warm+":"+q.Kind, fmt.Sprintf("%s query failed on the %s shard: %v", q.Kind, live.name, lerr), rn.replayOf(&q, warm))
 		return
 	}
 	var liveCands []c04lib.Cand
@@ -693,7 +822,7 @@ func (rn *runner) compareAll(q anyQuery, refs []shardRef) {
 		}
 		liveCanon = c04lib.FlatCanon(liveCands, lh)
 		if why := c04lib.FlatOracle(q.Limit, q.Weight, liveCands, lh); why != "" {
-			o.Fail("flat-knn:warm:"+liveCfg.Eff().Metric+"/"+liveCfg.Eff().Quant.String(), "live shard: "+why, rn.replayOf(&q, "warm"))
+			o.Fail("flat-knn:"+warm+":"+liveCfg.Eff().Metric+"/"+liveCfg.Eff().Quant.String(), live.name+" shard: "+why, rn.replayOf(&q, warm))
 			return
 		}
 	}
@@ -707,7 +836,7 @@ func (rn *runner) compareAll(q anyQuery, refs []shardRef) {
 			}
 		}
 		if len(lh) != want {
-			o.Fail("durable-int-equals", fmt.Sprintf("n == %d matches %d live points, the shard answers %d", q.I, want, len(lh)), rn.replayOf(&q, "warm"))
+			o.Fail("durable-int-equals", fmt.Sprintf("n == %d matches %d live points, the %s shard answers %d", q.I, want, live.name, len(lh)), rn.replayOf(&q, warm))
 		}
 	case q.Kind == "id":
 		want := 0
@@ -717,7 +846,7 @@ func (rn *runner) compareAll(q anyQuery, refs []shardRef) {
 			}
 		}
 		if len(lh) != want {
-			o.Fail("durable-id-lookup", fmt.Sprintf("_id lookup finds %d points, %d are live", len(lh), want), rn.replayOf(&q, "warm"))
+			o.Fail("durable-id-lookup", fmt.Sprintf("_id lookup on the %s shard finds %d points, %d are live", live.name, len(lh), want), rn.replayOf(&q, warm))
 		}
 	}
 	for _, ref := range refs[1:] {
@@ -732,14 +861,14 @@ func (rn *runner) compareAll(q anyQuery, refs []shardRef) {
 		switch q.Kind {
 		case "int", "float", "string", "array", "id":
 			if a, b := setCanon(lh), setCanon(h); a != b {
-				diff = fmt.Sprintf("warm %s, %s %s", a, ref.name, b)
+				diff = fmt.Sprintf("%s %s, %s %s", warm, a, ref.name, b)
 			}
 		case "vamana":
 			if ref.own {
 				continue // its own random entry vector and insertion interleaving: another graph
 			}
 			if a, b := exactCanon(lh), exactCanon(h); a != b {
-				diff = fmt.Sprintf("warm %s, %s %s", a, ref.name, b)
+				diff = fmt.Sprintf("%s %s, %s %s", warm, a, ref.name, b)
 			}
 		case "text":
 			diff = textSame(lh, h)
@@ -761,12 +890,12 @@ func (rn *runner) compareAll(q anyQuery, refs []shardRef) {
 			}
 			if det {
 				if c := c04lib.FlatCanon(cands, h); c != liveCanon {
-					diff = fmt.Sprintf("warm %s, %s %s", liveCanon, ref.name, c)
+					diff = fmt.Sprintf("%s %s, %s %s", warm, liveCanon, ref.name, c)
 				}
 			}
 		}
 		if diff != "" {
-			o.Fail("answer-differs:"+sig, fmt.Sprintf("%s query %+v: %s", q.Kind, q, diff), rn.replayOf(&q, ref.name))
+			o.Fail("answer-differs:"+sig, fmt.Sprintf("%s query %s: %s", q.Kind, q.show(), diff), rn.replayOf(&q, ref.name))
 		}
 	}
 }
@@ -778,54 +907,170 @@ func (rn *runner) history(dir string, nb, nq int) {
 			o.Fail("shard-panic", fmt.Sprintf("panic while running a history: %v", rec), rn.replayOf(rn.curQ, "panic"))
 		}
 	}()
-	sim := c04lib.NewSim(dir, schemaAll(rn.ac.Cfgs), []string{"live", "disabled", "evicting", "lru", "mem"})
+	sim := rn.ac.newSim(dir)
 	rn.sim = sim
 	defer sim.Close()
+	defer rn.poisonStats()
+	trained := map[string]bool{}
 	for bi := 0; bi < nb; bi++ {
 		jb := rn.genBatch()
 		if len(jb.Changes) == 0 {
 			continue
 		}
+		if rn.r.Chance(20) {
+			// the same batch first fails at commit time (on the shards behind the storage proxy), is
+			// answered for like any other state, and is then applied for good
+			fb := jb
+			fb.Fault, fb.Restart = true, false
+			rn.ac.Batches = append(rn.ac.Batches, fb)
+			c04lib.Progress("applying a "+jb.Kind+" batch whose commit fails (the last one of this case)", rn.replayOf(nil, "batch"))
+			if err := fb.applyTo(sim); err != nil {
+				o.Fail("faulted-batch:"+jb.Kind, err.Error(), rn.replayOf(nil, "batch"))
+				return
+			}
+			o.Stats["batch-failing-at-commit"]++
+			rn.answerAll(nq / 2)
+		}
 		rn.ac.Batches = append(rn.ac.Batches, jb)
 		rn.curQ = nil
 		c04lib.Progress("applying a "+jb.Kind+" batch (the last one of this case)", rn.replayOf(nil, "batch"))
-		_, _, err := sim.Apply(jb.toBatch())
+		err := jb.applyTo(sim)
 		o.Stats["batch-"+jb.Kind]++
+		if jb.Restart {
+			o.Stats["restart-after-batch"]++
+		}
 		if err != nil {
 			o.Fail("batch-rejected:"+jb.Kind, fmt.Sprintf("a valid %s batch was rejected: %v", jb.Kind, err), rn.replayOf(nil, "batch"))
 			return
 		}
-		refs, closeRefs := refsFor(sim)
-		// durability on every shard and on the reopened copies: the point count
+		rn.trainingStats(trained)
+		rn.graphStats(jb.Kind)
+		rn.answerAll(nq)
+	}
+}
+
+// answerAll: the current committed state is answered for by every shard
+func (rn *runner) answerAll(nq int) {
+	o, sim := rn.o, rn.sim
+	groups, closeRefs := refsFor(sim)
+	defer closeRefs()
+	// durability on every shard and on the reopened copies: the point count
+	for _, refs := range groups {
 		for _, ref := range refs {
 			info, err := ref.sh.Info()
 			if err != nil || int(info.PointCount) != len(sim.Order) {
 				o.Fail("durable-count:"+ref.name, fmt.Sprintf("%s shard reports %d points (err %v), %d are live", ref.name, info.PointCount, err, len(sim.Order)), rn.replayOf(nil, ref.name))
 			}
 		}
-		for _, q := range rn.genQueries(nq) {
-			q := q
-			rn.curQ = &q
-			c04lib.Progress("answering a "+q.Kind+" query on every shard", rn.replayOf(&q, "query"))
-			before := len(o.Oracle)
+	}
+	for _, q := range rn.genQueries(nq) {
+		q := q
+		rn.curQ = &q
+		c04lib.Progress("answering a "+q.Kind+" query on every shard", rn.replayOf(&q, "query"))
+		before := len(o.Oracle)
+		for _, refs := range groups {
 			rn.compareAll(q, refs)
-			if len(o.Oracle) > before && rn.shrinks < 2 {
-				rn.shrinks++
-				rn.shrink(o.Oracle[before].Signature, q, &o.Oracle[before])
-			}
 		}
-		closeRefs()
+		if len(o.Oracle) > before && rn.shrinks < 2 {
+			rn.shrinks++
+			rn.shrink(o.Oracle[before].Signature, q, &o.Oracle[before])
+		}
+		if len(o.Oracle) > before {
+			c04lib.SaveFailures(o.Oracle)
+		}
 	}
 }
 
-// refsFor: the shards that answer every query: [0] the live one, the separately run variants, and
-// fresh shards on a copy of the live file (cold, cache disabled, tiny cache asked twice)
-func refsFor(sim *c04lib.Sim) ([]shardRef, func()) {
-	refs := []shardRef{}
-	for _, v := range sim.Variants {
-		refs = append(refs, shardRef{name: v.Name, sh: v.Shard, own: v.Name != "live", nodes: c04lib.NodeIds(c04lib.DumpBucket(v.Shard, c04lib.PointsBucket))})
+// trainingStats: which quantisers crossed their trigger inside the batch just applied ("trained in
+// this very batch": the answers right after it are the ones that depend on the order of training
+// and persisting), which are queried trained from an earlier batch, which never trained
+func (rn *runner) trainingStats(trained map[string]bool) {
+	type ix struct {
+		kind, bucket string
+		cfg          c04lib.FlatCfg
 	}
+	var all []ix
+	for _, c := range rn.ac.Cfgs {
+		all = append(all, ix{"flat", c.Bucket(), c})
+	}
+	if rn.ac.Gq != nil {
+		all = append(all, ix{"vamana", vamanaBucket(rn.ac.Gq.Prop), *rn.ac.Gq})
+	}
+	for _, x := range all {
+		e := x.cfg.Eff()
+		if e.Quant != c04lib.QBinLearned && e.Quant != c04lib.QProduct {
+			continue
+		}
+		st := c04lib.ReadStoreState(x.cfg, c04lib.DumpBucket(rn.sim.Live(), x.bucket))
+		key := x.kind + "/" + e.Quant.String()
+		switch {
+		case st.Trained && !trained[x.bucket]:
+			trained[x.bucket] = true
+			rn.o.Stats["queried-right-after-training:"+key]++
+		case st.Trained:
+			rn.o.Stats["queried-trained-earlier:"+key]++
+		default:
+			rn.o.Stats["queried-untrained:"+key]++
+		}
+	}
+}
+
+// graphStats: how often the committed graphs are in the sparse states that matter for C08: the entry
+// node (id 1) holding more than one edge after a delete / update batch on a chain (= the "save"
+// step of removeInboundEdges has re-attached a straggler), nodes without outgoing edges
+func (rn *runner) graphStats(kind string) {
+	for _, cf := range rn.ac.vamanaCfgs() {
+		d := c04lib.DumpBucket(rn.sim.Live(), vamanaBucket(cf.Prop))
+		if e, ok := d[c04lib.NodeKey(1, 'e')]; ok && len(e) > 8 && rn.ac.Shape == "chain" && kind != "insert" {
+			rn.o.Stats["chain-entry-node-with-rescue-edges-after-"+kind]++
+		}
+		for k, v := range d {
+			if len(k) == 10 && k[9] == 'e' && len(v) == 0 {
+				rn.o.Stats["graph-node-without-edges"]++
+			}
+		}
+	}
+}
+
+func (rn *runner) poisonStats() {
+	if rn.sim == nil {
+		return
+	}
+	for _, v := range rn.sim.Variants {
+		if v.Poison != nil {
+			rn.o.Stats["poisoned-transactions"] += int(v.Poison.Txs.Load())
+			rn.o.Stats["poisoned-slices"] += int(v.Poison.Slices.Load())
+		}
+		if v.Name == "restart" {
+			rn.o.Stats["restarts"] += v.Opens - 1
+		}
+	}
+}
+
+// refsFor: the groups of shards that answer every query; the first of a group is its base, the
+// others are compared with it.
+//
+//	group 0: the live shard, the separately run variants, and fresh shards on a copy of the live
+//	         file (cold, cache disabled, tiny cache asked twice);
+//	group 1: the "restart" shard — restarted at some points of the history, its cache filled by
+//	         reads, alive across the following batches, behind the poisoning storage proxy — and a
+//	         fresh shard on a copy of ITS file: the same graph, the same codes, so every kind of
+//	         answer is compared exactly;
+//	group 2: the same for the "lru" shard (whole caches evicted and re-read now and then, on bbolt
+//	         directly: what a retained alias does there depends on bbolt's page recycling).
+func refsFor(sim *c04lib.Sim) ([][]shardRef, func()) {
+	refs := []shardRef{}
 	var closers []func()
+	var more [][]shardRef
+	for _, v := range sim.Variants {
+		ref := shardRef{name: v.Name, sh: v.Shard, own: v.Name != "live", nodes: c04lib.NodeIds(c04lib.DumpBucket(v.Shard, c04lib.PointsBucket))}
+		refs = append(refs, ref)
+		if v.Name == "restart" || v.Name == "lru" {
+			sh, done := sim.OpenCopyOf(v, -1)
+			closers = append(closers, done)
+			more = append(more, []shardRef{{name: v.Name, sh: v.Shard, nodes: ref.nodes}, {name: v.Name + "-cold", sh: sh, nodes: ref.nodes}})
+		}
+	}
 	for _, cs := range []struct {
 		name string
 		size int64
@@ -839,7 +1084,8 @@ func refsFor(sim *c04lib.Sim) ([]shardRef, func()) {
 		closers = append(closers, done)
 		refs = append(refs, shardRef{name: cs.name, sh: sh, nodes: refs[0].nodes})
 	}
-	return refs, func() {
+	groups := append([][]shardRef{refs}, more...)
+	return groups, func() {
 		for _, c := range closers {
 			c()
 		}
@@ -857,17 +1103,19 @@ func (rn *runner) stillFails(ac allCase, q anyQuery, sig string) (bad bool) {
 		return false
 	}
 	defer os.RemoveAll(tmp)
-	sim := c04lib.NewSim(tmp, schemaAll(ac.Cfgs), []string{"live", "disabled", "evicting", "lru", "mem"})
+	sim := ac.newSim(tmp)
 	defer sim.Close()
 	for _, jb := range ac.Batches {
-		if _, _, err := sim.Apply(jb.toBatch()); err != nil {
+		if err := jb.applyTo(sim); err != nil {
 			return false
 		}
 	}
 	sb := &runner{r: vh.NewRng(1), o: vh.NewOut(tmp + "/out"), ac: ac, sim: sim, shrinks: 99}
-	refs, closeRefs := refsFor(sim)
+	groups, closeRefs := refsFor(sim)
 	defer closeRefs()
-	sb.compareAll(q, refs)
+	for _, refs := range groups {
+		sb.compareAll(q, refs)
+	}
 	for _, f := range sb.o.Oracle {
 		if f.Signature == sig {
 			return true
@@ -877,7 +1125,8 @@ func (rn *runner) stillFails(ac allCase, q anyQuery, sig string) (bad bool) {
 }
 
 func (rn *runner) shrink(sig string, q anyQuery, f *vh.OracleFailure) {
-	cur := allCase{Cfgs: rn.ac.Cfgs, Batches: append([]jBatch{}, rn.ac.Batches...)}
+	cur := rn.ac
+	cur.Batches = append([]jBatch{}, rn.ac.Batches...)
 	if !rn.stillFails(cur, q, sig) {
 		return
 	}
@@ -889,7 +1138,8 @@ func (rn *runner) shrink(sig string, q anyQuery, f *vh.OracleFailure) {
 	}
 	for bi := len(cur.Batches) - 1; bi >= 0; bi-- {
 		for ci := len(cur.Batches[bi].Changes) - 1; ci >= 0 && len(cur.Batches[bi].Changes) > 1; ci-- {
-			cand := allCase{Cfgs: cur.Cfgs, Batches: append([]jBatch{}, cur.Batches...)}
+			cand := cur
+			cand.Batches = append([]jBatch{}, cur.Batches...)
 			nb := cand.Batches[bi]
 			nb.Changes = append(append([]jChange{}, nb.Changes[:ci]...), nb.Changes[ci+1:]...)
 			cand.Batches[bi] = nb
@@ -902,6 +1152,121 @@ func (rn *runner) shrink(sig string, q anyQuery, f *vh.OracleFailure) {
 	rn.ac = cur
 	f.Replay = rn.replayOf(&q, fmt.Sprintf("shrunk from %d batches", len(save.Batches)))
 	rn.ac = save
+}
+
+// ---------------------------------------------------------------- corpus: small scripted histories that run first
+
+type scripted struct {
+	name    string
+	ac      allCase
+	queries []anyQuery
+}
+
+func uid(i int) string { return uuid.UUID{0xc0, byte(i)}.String() }
+
+func insOf(prop string, from int, vecs ...[]float32) jBatch {
+	b := jBatch{Kind: "insert"}
+	for i, v := range vecs {
+		b.Changes = append(b.Changes, jChange{Id: uid(from + i), Vec: map[string][]float32{prop: v}})
+	}
+	return b
+}
+
+func delOf(ids ...int) jBatch {
+	b := jBatch{Kind: "delete"}
+	for _, i := range ids {
+		b.Changes = append(b.Changes, jChange{Id: uid(i)})
+	}
+	return b
+}
+
+// corpus: the minimal shapes of the state classes that random histories reach only sometimes —
+// a chain that is cut so that its last point loses every inbound edge; a quantiser whose trigger is
+// crossed inside a batch (per index kind and quantiser); a cache filled by reads after a restart and
+// used again; a batch whose commit fails. Each is answered for after every batch like any history.
+func corpus() []scripted {
+	flat := []c04lib.FlatCfg{{Prop: "v0", Metric: "euclidean", Dim: 2}, {Prop: "v1", Metric: "euclidean", Dim: 4, Quant: c04lib.QProduct, NumSub: 2, NumCent: 2, Trigger: 4}}
+	var out []scripted
+	// chain start - p0 - … - p5, one point per batch; p3 and p4 deleted together: p5 is a straggler
+	ch := allCase{Cfgs: flat, Shape: "chain"}
+	for k := 0; k < 6; k++ {
+		ch.Batches = append(ch.Batches, insOf("g", k, chainAt(vamanaCfg, k)))
+	}
+	ch.Batches = append(ch.Batches, delOf(3, 4), insOf("g", 6, chainAt(vamanaCfg, 6)), delOf(5, 6))
+	out = append(out, scripted{"chain-cut", ch, []anyQuery{
+		{Kind: "vamana", Prop: "g", Vec: []float32{0, 0}, Limit: 75}, {Kind: "vamana", Prop: "g", Vec: chainAt(vamanaCfg, 5), Limit: 1}, {Kind: "vamana", Prop: "g", Vec: chainAt(vamanaCfg, 6), Limit: 2}}})
+	// the trigger of the quantised Vamana index / of the flat product index is crossed inside the second batch
+	pts := [][]float32{{1, 0, 2, -1}, {-2, 1, 0, 1}, {0, -1, 1, 2}, {2, 2, -1, 0}, {-1, 0, -2, 1}, {1, 1, 1, -2}}
+	for _, gq := range []c04lib.FlatCfg{
+		{Prop: "gq", Metric: "euclidean", Dim: 4, Quant: c04lib.QBinLearned, BitMetric: "hamming", Trigger: 4},
+		{Prop: "gq", Metric: "euclidean", Dim: 4, Quant: c04lib.QProduct, NumSub: 2, NumCent: 2, Trigger: 4},
+	} {
+		gq := gq
+		for _, prop := range []string{"gq", "v1"} {
+			tr := allCase{Cfgs: flat, Gq: &gq, PoisonLive: prop == "v1"}
+			tr.Batches = []jBatch{insOf(prop, 0, pts[0], pts[1]), insOf(prop, 2, pts[2], pts[3]), insOf(prop, 4, pts[4]), delOf(1), insOf(prop, 5, pts[5])}
+			tr.Batches[1].Restart = true // the restarted shard reads what the training batch committed
+			kind := "vamana"
+			if prop == "v1" {
+				kind = "flat"
+			}
+			out = append(out, scripted{"train-in-batch:" + prop + ":" + gq.Eff().Quant.String(), tr, []anyQuery{
+				{Kind: kind, Prop: prop, Vec: []float32{1, 0, 1, 0}, Limit: 75}, {Kind: kind, Prop: prop, Vec: []float32{-1, 1, 0, 2}, Limit: 2}, {Kind: kind, Prop: prop, Vec: []float32{1, 0, 1, 0}, Limit: 3}}})
+		}
+	}
+	// a batch whose commit fails between two that succeed
+	ft := allCase{Cfgs: flat, PoisonLive: true}
+	bad := insOf("g", 3, []float32{2, 2}, []float32{-1, 2})
+	bad.Fault = true
+	good := bad
+	good.Fault = false
+	badDel := delOf(0, 3)
+	badDel.Fault = true
+	ft.Batches = []jBatch{insOf("g", 0, []float32{1, 0}, []float32{0, 1}, []float32{-2, -1}), bad, good, badDel, delOf(0, 3)}
+	out = append(out, scripted{"commit-fails", ft, []anyQuery{{Kind: "vamana", Prop: "g", Vec: []float32{1, 1}, Limit: 75}, {Kind: "id", Strs: []string{uid(0), uid(3)}}}})
+	return out
+}
+
+func (rn *runner) scripted(dir string, sc scripted) {
+	o := rn.o
+	defer func() {
+		if rec := recover(); rec != nil {
+			o.Fail("shard-panic", fmt.Sprintf("panic while running corpus case %s: %v", sc.name, rec), rn.replayOf(rn.curQ, "panic"))
+		}
+	}()
+	rn.ac = sc.ac
+	rn.ac.Batches = nil
+	sim := rn.ac.newSim(dir)
+	rn.sim = sim
+	defer sim.Close()
+	defer rn.poisonStats()
+	for _, jb := range sc.ac.Batches {
+		rn.ac.Batches = append(rn.ac.Batches, jb)
+		rn.curQ = nil
+		c04lib.Progress("corpus "+sc.name+": applying a "+jb.Kind+" batch (the last one of this case)", rn.replayOf(nil, "batch"))
+		if err := jb.applyTo(sim); err != nil {
+			o.Fail("batch-rejected:"+jb.Kind, fmt.Sprintf("corpus %s: a valid %s batch was rejected: %v", sc.name, jb.Kind, err), rn.replayOf(nil, "batch"))
+			return
+		}
+		o.Stats["corpus-batch"]++
+		groups, closeRefs := refsFor(sim)
+		// the queries twice: the second round is served from what the first one read
+		for round := 0; round < 2; round++ {
+			for _, q := range sc.queries {
+				q := q
+				rn.curQ = &q
+				c04lib.Progress("corpus "+sc.name+": answering a "+q.Kind+" query on every shard", rn.replayOf(&q, "query"))
+				before := len(o.Oracle)
+				for _, refs := range groups {
+					rn.compareAll(q, refs)
+				}
+				if len(o.Oracle) > before {
+					c04lib.SaveFailures(o.Oracle)
+				}
+			}
+		}
+		closeRefs()
+	}
 }
 
 func main() {
@@ -934,9 +1299,33 @@ func main() {
 		{{Prop: "v0", Metric: "jaccard", Dim: 65}, {Prop: "v1", Metric: "haversine", Dim: 2}},
 		{{Prop: "v0", Metric: "euclidean", Dim: 2, Quant: c04lib.QBinFixed, Thr: 0, BitMetric: "hamming"}, {Prop: "v1", Metric: "dot", Dim: 4, Quant: c04lib.QBinLearned, BitMetric: "hamming", Trigger: 8}},
 	}
+	// the second Vamana index: every quantiser; triggers small enough to be crossed INSIDE a batch in
+	// the middle of a history (so that answers are compared right after the training batch, while
+	// trained in an earlier batch / an earlier life of the process, and before any training), and one
+	// that never trains
+	gqs := []c04lib.FlatCfg{
+		{Prop: "gq", Metric: "euclidean", Dim: 4, Quant: c04lib.QBinLearned, BitMetric: "hamming", Trigger: 6},
+		{Prop: "gq", Metric: "euclidean", Dim: 4, Quant: c04lib.QProduct, NumSub: 2, NumCent: 2, Trigger: 7},
+		{Prop: "gq", Metric: "cosine", Dim: 4, Quant: c04lib.QBinLearned, BitMetric: "jaccard", Trigger: 9},
+		{Prop: "gq", Metric: "dot", Dim: 4, Quant: c04lib.QProduct, NumSub: 2, NumCent: 3, Trigger: 5},
+		{Prop: "gq", Metric: "euclidean", Dim: 2, Quant: c04lib.QBinFixed, Thr: 0, BitMetric: "hamming"},
+		{Prop: "gq", Metric: "cosine", Dim: 4, Quant: c04lib.QProduct, NumSub: 2, NumCent: 2, Trigger: 11},
+		{Prop: "gq", Metric: "dot", Dim: 2, Quant: c04lib.QBinLearned, BitMetric: "hamming", Trigger: 1000},
+	}
+	for i, sc := range corpus() {
+		rn := &runner{r: r, o: o, shrinks: 99}
+		cd := fmt.Sprintf("%s/c%d", tmp, i)
+		os.MkdirAll(cd, 0o755)
+		rn.scripted(cd, sc)
+		os.RemoveAll(cd)
+	}
 	for h := 0; h < *nhist; h++ {
 		pair := quants[h%len(quants)]
-		rn := &runner{r: r, o: o, ac: allCase{Cfgs: []c04lib.FlatCfg{pair[0], pair[1]}}}
+		gq := gqs[h%len(gqs)]
+		rn := &runner{r: r, o: o, ac: allCase{Cfgs: []c04lib.FlatCfg{pair[0], pair[1]}, Gq: &gq, PoisonLive: h%2 == 1}}
+		if h%3 == 2 {
+			rn.ac.Shape = "chain"
+		}
 		hd := fmt.Sprintf("%s/h%d", tmp, h)
 		os.MkdirAll(hd, 0o755)
 		rn.history(hd, *nb, *nq)
@@ -981,11 +1370,11 @@ func replayShard(b64 string) {
 	}
 	tmp, _ := os.MkdirTemp("", "c08r-")
 	defer os.RemoveAll(tmp)
-	sim := c04lib.NewSim(tmp, schemaAll(rc.Case.Cfgs), []string{"live", "disabled", "evicting", "lru", "mem"})
+	sim := rc.Case.newSim(tmp)
 	defer sim.Close()
 	var sb strings.Builder
 	for _, jb := range rc.Case.Batches {
-		if _, _, err := sim.Apply(jb.toBatch()); err != nil {
+		if err := jb.applyTo(sim); err != nil {
 			fmt.Fprintf(&sb, "batch %s rejected: %v; ", jb.Kind, err)
 		}
 	}
@@ -993,27 +1382,40 @@ func replayShard(b64 string) {
 	if rc.Query != nil {
 		q := *rc.Query
 		fmt.Fprintf(&sb, "query %+v: ", q)
-		show := func(name string, sh *shard.Shard) {
+		render := func(sh *shard.Shard) string {
 			h, e := c04lib.Search(sh, q.toQuery())
 			if e != nil {
-				fmt.Fprintf(&sb, "%s: error %v; ", name, e)
-				return
+				return fmt.Sprintf("error %v", e)
 			}
 			switch q.Kind {
 			case "int", "float", "string", "array", "id":
-				fmt.Fprintf(&sb, "%s: %s; ", name, setCanon(h))
-			default:
-				p := make([]string, len(h))
-				for i, x := range h {
-					v := float32(0)
-					if x.Dist != nil {
-						v = *x.Dist
-					} else if x.Score != nil {
-						v = *x.Score
-					}
-					p[i] = fmt.Sprintf("%s@%v", x.Id.String()[:8], v)
+				return setCanon(h)
+			}
+			if q.Kind == "flat" {
+				// a flat scan visits the points in Go map order: ties are printed in id order
+				sort.SliceStable(h, func(i, j int) bool {
+					return h[i].Dist != nil && h[j].Dist != nil && *h[i].Dist == *h[j].Dist && h[i].Id.String() < h[j].Id.String()
+				})
+			}
+			p := make([]string, len(h))
+			for i, x := range h {
+				v := float32(0)
+				if x.Dist != nil {
+					v = *x.Dist
+				} else if x.Score != nil {
+					v = *x.Score
 				}
-				fmt.Fprintf(&sb, "%s: [%s]; ", name, strings.Join(p, " "))
+				p[i] = fmt.Sprintf("%s@%v", x.Id.String()[:8], v)
+			}
+			return "[" + strings.Join(p, " ") + "]"
+		}
+		// every shard is asked twice: the second answer is served from what the first one cached
+		show := func(name string, sh *shard.Shard) {
+			a, b := render(sh), render(sh)
+			if a == b {
+				fmt.Fprintf(&sb, "%s: %s; ", name, a)
+			} else {
+				fmt.Fprintf(&sb, "%s: %s, asked again: %s; ", name, a, b)
 			}
 		}
 		show("warm", sim.Live())
@@ -1022,6 +1424,11 @@ func replayShard(b64 string) {
 		done()
 		for _, v := range sim.Variants[1:] {
 			show(v.Name, v.Shard)
+			if v.Name == "restart" {
+				sh, done := sim.OpenCopyOf(v, -1)
+				show(v.Name+"-cold", sh)
+				done()
+			}
 		}
 	}
 	fmt.Println(sb.String())
